@@ -265,7 +265,7 @@ func c11Arrange(asc []time.Duration, order int) []time.Duration {
 
 func TestC11(t *testing.T) {
 	R := ev.New("C11")
-	R.Rule = "(c) constant inputs for every value 1..V ns and around every power of 2 and 10; (a) every sequence of length 1..6 over {1,2,3,1e3,1e6,1e12}ns, with and without a Close after every Add; (b) 8 structured families (constant, ramp, bimodal with a 1e9 gap at the 50/90/95/99% split, geometric plateaus, saw-tooth) for every n in 1..N (quick: additionally n=500,600..3000) and two-valued inputs with every split k/n for n<=60, each in sorted, reversed and interleaved arrival order; a case is distinct+non-trivial when its (arrival sequence, close mode) differs and it holds at least two different latencies (otherwise no percentile can be mis-ordered or mis-ranked)"
+	R.Rule = "(c) constant inputs for every value 1..V ns and around every power of 2 and 10; (a) every sequence of length 1..6 over {1,2,3,1e3,1e6,1e12}ns, with and without a Close after every Add; (b) 8 structured families (constant, ramp, bimodal with a 1e9 gap at the 50/90/95/99% split, geometric plateaus, saw-tooth) for every n in 1..N (quick: additionally n=500,600..3000) and two-valued inputs with every split k/n for n<=60, each in sorted, reversed and interleaved arrival order; a case is distinct+non-trivial when its (arrival sequence, close mode) differs and it holds at least two different latencies (otherwise no percentile can be mis-ordered or mis-ranked); (d) a lattice of data sets at 2^50..2^53 ns (3 base exponents x 8 offsets x spread 2^1..2^30 x 7 (13) sizes x 1 (4) congruential generators) through the hdrplot report and the order check"
 	R.Assume("random (uniform / log-normal) draws are outside a bounded exhaustive check; every n up to N is run for each structured family instead")
 	R.Assume("rank of an observed latency = its position in the sorted input counted from 0 or from 1, whichever is favourable, and with ties the favourable position (weaker reading: the statement fixes neither; the mid-point interpolation the estimator performs exactly for small n is within the bound for origin 0 and up to 0.5 rank outside for origin 1)")
 	alpha := []time.Duration{1, 2, 3, 1e3, 1e6, 1e12}
@@ -457,5 +457,75 @@ func TestC11(t *testing.T) {
 			}
 		}
 	}
+	c11Huge(R)
 	R.Finish(t)
+}
+
+// ---- (d) latencies beyond 2^50 ns ----------------------------------------------
+// There the estimator's float64 interpolation is no longer exact to the
+// nanosecond and neighbouring ladder rows can come out 1-2 ns in the wrong
+// order before the reporter's running maximum repairs them: a lattice of data
+// sets base + (x_i mod spread), x a congruential sequence, for every base
+// 2^sh*(1+f/8) (sh 50..52, f 0..7, plus irregular low bits), every spread
+// 2^1..2^30 and a ladder of sizes, all through the hdrplot report.
+func c11Huge(R *ev.Run) {
+	type job struct {
+		sh, fr, e, n int
+		k            int64
+	}
+	var jobs []job
+	sizes := []int{100, 333, 1000, 1500, 2500, 3600, 5000}
+	ks := []int64{2654435761}
+	if ev.Thorough() {
+		sizes = []int{10, 37, 100, 178, 333, 600, 1000, 1500, 1700, 2500, 3600, 5000, 7000}
+		ks = []int64{2654435761, 40503, 11400714819323198485 >> 2, 7}
+	}
+	for sh := 50; sh <= 52; sh++ {
+		for fr := 0; fr < 8; fr++ {
+			for e := 1; e <= 30; e++ {
+				for _, n := range sizes {
+					for _, k := range ks {
+						jobs = append(jobs, job{sh, fr, e, n, k})
+					}
+				}
+			}
+		}
+	}
+	found := make([][]c11Finding, len(jobs))
+	ev.Parallel(len(jobs), 16, func(i int) {
+		j := jobs[i]
+		// bases spread over [2^sh, 2^(sh+1)) with irregular low bits: that is where float64 weighted means round
+		base := int64(1)<<uint(j.sh) + (int64(1)<<uint(j.sh))/8*int64(j.fr) + int64(j.n)*977*1000003 + int64(j.e)*7919
+		spread := int64(1) << uint(j.e)
+		m := &Metrics{}
+		x := int64(j.n)
+		for c := 0; c < j.n; c++ {
+			x = (x*j.k + 12345) & (1<<62 - 1)
+			m.Add(&Result{Code: 200, Latency: time.Duration(base + (x>>7)%spread)})
+		}
+		m.Close()
+		R.Eval(1)
+		R.Trans(j.n + 2)
+		R.Distinct(fmt.Sprint("d", j))
+		fs := c11Plot(m, "huge-lattice")
+		l := m.Latencies
+		if !(l.Min <= l.P50 && l.P50 <= l.P90 && l.P90 <= l.P95 && l.P95 <= l.P99 && l.P99 <= l.Max) {
+			fs = append(fs, c11Finding{"pct:order:huge-lattice", fmt.Sprintf("min %d p50 %d p90 %d p95 %d p99 %d max %d", l.Min, l.P50, l.P90, l.P95, l.P99, l.Max)})
+		}
+		for k := range fs {
+			fs[k].detail = map[string]any{"what": fs[k].detail, "base_exponent": j.sh, "base_eighth": j.fr, "spread_exponent": j.e, "n": j.n, "multiplier": j.k}
+		}
+		found[i] = fs
+	})
+	R.Part("d", "huge-latency data sets", len(jobs))
+	seen := map[string]bool{}
+	for _, fs := range found {
+		for _, f := range fs {
+			if !seen[f.key] {
+				seen[f.key] = true
+				R.Violation(f.key, f.detail)
+			}
+			R.Part("d_failing_sets", f.key, 1)
+		}
+	}
 }
